@@ -19,6 +19,10 @@ RULE = (
     "read off the returned token and the execution log. distinct = (cache kind, history hash); non-trivial = the "
     "history has at least one hit and one miss after the first call."
 )
+RULE += (
+    " Lazy-constant histories also contain 'race' steps: a sibling task calls dirty() while the refresh is "
+    "suspended on a batch item (the next call must recompute)."
+)
 ASSUMPTIONS = [
     "calls of one history are sequential (each completes before the next), except the explicit steps that put several calls in flight at once (two keys on the per-instance cache; 2-5 calls incl. repeated keys on the LRU caches, where the model stores results in the observed completion order)",
     "the scripted clock never reports 0 and never sits exactly on a ttl boundary (the statement does not fix the boundary side)",
